@@ -47,7 +47,12 @@ class Resampler:
         self.resample = resample
         self.clusterer = clusterer
         self.clustering = clustering
-        self.have_blobs = have_blobs
+        self._have_blobs = have_blobs
+
+    @property
+    def have_blobs(self) -> bool:
+        """Blobs are handled when declared (blobs_dtype) or returned by the likelihood."""
+        return self._have_blobs or self.state.get_current("blobs") is not None
 
     def run(self, weights: np.ndarray) -> None:
         """
